@@ -24,7 +24,7 @@ CLAIMS = {
     ),
     "C03": dict(
         engine="codec",
-        text="Lean 4 theorems over a decoder model that carries the abort conditions of every bytes-crate primitive the code calls: no byte stream in any state reaches a panic site, retained bytes <= received bytes, a declared length stores nothing; SocketType::compatible total over the table regenerated from the code (decide). PARTIAL w.r.t. the runtime: allocator and stack are observed, not modelled — hostile streams (exhaustive alphabet, length-field/truncation mutations, 20 000 MORE frames, junk greetings, random) run against the real decoder on a 256 KiB-stack thread with a counting allocator, crashes isolated by process bisection.",
+        text="Lean 4 theorems over a decoder model that carries the abort conditions of every bytes-crate primitive the code calls: no byte stream in any state reaches a panic site, retained bytes <= received bytes, a declared length stores nothing; SocketType::compatible total over the table regenerated from the code (decide). PARTIAL w.r.t. the runtime: allocator and stack are observed, not modelled — hostile streams (exhaustive alphabet, length-field/truncation mutations, 20 000 MORE frames, junk greetings, random) run against the real decoder on a 256 KiB-stack thread with a counting allocator, crashes isolated by process bisection; and floods of items a socket's recv loop ignores (6 000 / 25 000 commands, bogus subscriptions, non-matching topics in ONE read) through real sockets of all 8 reading types, polled on a 2 MiB-stack thread, followed by a valid message and a healthy peer's message.",
         note=LEAN_NOTE + "bytes crate panic conditions as modelled in Model/Basic.lean; heap budget 64 x bytes received + 32 KiB",
         technique="Lean 4 proof (explicit panic outcomes, retained-bytes invariant) + hostile-input correspondence with heap/stack observation",
     ),
@@ -36,13 +36,13 @@ CLAIMS = {
     ),
     "C05": dict(
         engine="fq",
-        text="Lean 4 invariants over the micro-step model of the fair queue (lock sections A/B/C, insert/remove/arrive/close landing anywhere, incl. inside the unlocked window), proved preserved by every step and hence true after ANY finite schedule with any number of peers: conservation (given = delivered ++ in-flight ++ still queued), per-peer prefix order, no duplicates, at most one stream checked out. Tie: the real FairQueue over scripted streams replays the SAME schedule as the model and must give the same result for every poll (exhaustive op sequences for 2/3 peers, every single window-action placement, seeded random); Spec oracle on the implementation's trace (prefix, no-dup, completeness after drain). Socket-level recv filters are tied by the world engine as it grows.",
+        text="Lean 4 invariants over the micro-step model of the fair queue (lock sections A/B/C, insert/remove/arrive/close landing anywhere, incl. inside the unlocked window), proved preserved by every step and hence true after ANY finite schedule with any number of peers: conservation (given = delivered ++ in-flight ++ still queued), per-peer prefix order, no duplicates, at most one stream checked out. Tie: the real FairQueue over scripted streams replays the SAME schedule as the model and must give the same result for every poll (exhaustive op sequences for 2/3 peers, every single window-action placement, seeded random); Spec oracle on the implementation's trace (prefix, no-dup, completeness after drain). Socket level: seeded random schedules of real PULL/SUB/DEALER/ROUTER/REP/XPUB sockets predicted line by line by the World model, and `streams` cases judged by the Spec itself (per peer, delivered = complete messages put on the wire; empty frames anywhere; clean and mid-message EOF). The budget op `exhaust` and the waker op `setwaker` (see C06) are part of the schedules.",
         note=LEAN_NOTE + "std BinaryHeap/HashMap, parking_lot::Mutex as atomic sections; true parallel data races not modelled; distinct keys",
         technique="Lean 4 proof (invariant by induction over all interleavings) + exact-schedule differential correspondence",
     ),
     "C06": dict(
         engine="fq",
-        text="Lean 4 theorems over the same fair-queue model, for all schedules: I1 (parked & un-notified => heap empty & waker published), I2 (available => exactly one event), wake-up on arrive/close/insert, progress (a polled recv returns Ready within 3*|heap| sections whenever something is available), bounded bypass (while i is owed a delivery every other peer is served at most once; potential argument over tickets). PARTIAL: the bypass bound assumes the kernel-socket waker discipline; real-time liveness of the reactor is outside the model. Tie: wake counts and exact delivery order compared per op with the real FairQueue on exhaustive and seeded schedules; Spec oracle for wake, completeness and bypass on the implementation's trace.",
+        text="Lean 4 theorems over the same fair-queue model, for all schedules: I1 (parked & un-notified => heap empty & waker published), I2 (available => exactly one event), wake-up on arrive/close/insert, progress (a polled recv returns Ready within 3*|heap| sections whenever something is available), bounded bypass (while i is owed a delivery every other peer is served at most once; potential argument over tickets); every poll_next call RETURNS whatever the executor's cooperative budget does (a variant that decreases with every section; the loop of the pinned tree provably did not — finding D17, a recv() livelock under tokio's coop budget, repaired by a fix: commit); the wake-up goes to the waker of the LATEST call (C06_wake_latest). PARTIAL: the bypass bound assumes the kernel-socket waker discipline; real-time liveness of the reactor is outside the model. Tie: wake counts, WHICH waker was woken, and exact delivery order compared per op with the real FairQueue on exhaustive and seeded schedules incl. budget exhaustion (every stream poll wakes itself and returns Pending; LIVELOCK reported after 20 000 stream polls in one call) and polls made with different wakers; Spec oracle for wake (count and identity), completeness and bypass on the implementation's trace.",
         note=LEAN_NOTE + "waker discipline hypothesis (one armed waker per stream, consumed on firing) for the bypass bound; OS/tokio timing not modelled",
         technique="Lean 4 proof (invariants I1/I2/one-token, progress by strong induction, bounded bypass by ticket potential) + exact-schedule differential correspondence",
     ),
@@ -60,7 +60,7 @@ CLAIMS = {
     ),
     "C14": dict(
         engine="world",
-        text="Lean 4: in the World model the recv future of every fair-queue socket is stateless (a pending poll leaves exactly the freshly-issued future), REQ keeps the request marker in the socket while its recv is pending, and at fair-queue level abandon+reissue is a spurious poll, covered by the conservation invariant for all schedules. Tie (the substance): real recv futures of all 7 socket types polled k=1..3 times and DROPPED at every byte-arrival position of a two-message stream, repeated, then drained — the model must predict every line; oracle: drained sequence = messages on the wire; REQ refuses the second send and returns the first reply.",
+        text="Lean 4: in the World model the recv future of every fair-queue socket is stateless (a pending poll leaves exactly the freshly-issued future), REQ keeps the request marker in the socket while its recv is pending, and at fair-queue level abandon+reissue is a spurious poll, covered by the conservation invariant for all schedules. Tie (the substance): real recv futures of all 7 socket types polled k=1..3 times and DROPPED at every byte-arrival position of a two-message stream, repeated, then drained — the model must predict every line; oracle: drained sequence = messages on the wire; REQ refuses the second send and returns the first reply; a later recv that goes Pending first is WOKEN by its own waker when the bytes arrive (every future has its own waker; op `woken`); REP answers an outstanding request behind its envelope after further recvs were abandoned.",
         note=LEAN_NOTE + "futures are dropped between polls only",
         technique="Lean 4 proof (stateless-future lemmas, REQ marker invariant) + exhaustive cancellation-point correspondence",
     ),
@@ -102,19 +102,19 @@ CLAIMS = {
     ),
     "C16": dict(
         engine="world",
-        text="Lean 4 on the World model's peer_disconnected (as coded per backend) and fair-queue poll: forgotten (no table entry a later send consults), isolated (no other peer's entry changes), write half released; and the NEGATIONS for the pairs where the code is wrong, as general theorems: the fair-queue poll never touches the peer table, so an orderly EOF (consumed inside the queue) leaves the departed peer's write half registered; a failed write in REQ/ROUTER/REP send keeps the peer. Those (type, event) pairs are enumerated as known findings with witnesses; any other pair failing is a violation. PARTIAL: descriptor release observed via the pipe halves' Drop flags, not modelled. Tie: 9 socket types x every cut position of the victim's stream (each handshake stage, header, 8-byte length, body, between frames, between messages) x {EOF, read error, write error, protocol error} with bystanders; recv error count / no spin, late sends, halves.",
+        text="Lean 4 on the World model's peer_disconnected (as coded per backend) and fair-queue poll: forgotten (no table entry a later send consults), isolated (no other peer's entry changes), write half released (every socket type); an orderly EOF observed by the fair-queue poll forgets the peer whatever else that poll goes on to do (C16_eof_forgets) and releases both halves; a failed write in REQ/ROUTER/REP send and an ended/failed reply stream in REQ recv forget the peer. (On the pinned tree the last three were FALSE — proved as negations, recorded as findings D12/D13, then repaired by two fix: commits; every (type, event) pair is now required to hold.) PARTIAL: descriptor release observed via the pipe halves' Drop flags, not modelled. Tie: 9 socket types x every cut position of the victim's stream (each handshake stage, header, 8-byte length, body, between frames, between messages) x {EOF, read error, write error, protocol error} with bystanders; recv error count / no spin, late sends, halves.",
         note=LEAN_NOTE + "FramedRead2 EOF handling modelled; OS descriptor release observed not modelled",
-        technique="Lean 4 proof (per-event theorems; negation theorems for the recorded pairs) + fault-position x event correspondence",
+        technique="Lean 4 proof (per-event theorems) + fault-position x event correspondence",
     ),
     "C17": dict(
         engine="world",
-        text="Lean 4: ownership graph with reference-count semantics (Freed = inductive least fixpoint): with the repaired fair queue, dropping/closing the socket frees every registered connection whatever wakers were armed (dropped_closes) and always frees the accept tasks; the NEGATION for the queue as it was (an armed StreamWaker closes a strong cycle through the transport — reproduced on the real code, repaired by a fix: commit); finding: a pending handshake survives close/drop (known finding D14). World model: Drop/close() empty every table. PARTIAL: OS sockets, tokio scheduling and 'shortly afterwards' are observed, not modelled. Tie: 9 socket types x all 2^5 history prefixes {recv pending, recv delivered, send, peer EOF, pending handshake} x {drop, close()} over scripted pipes whose halves record their own Drop, compared half by half.",
+        text="Lean 4: ownership graph with reference-count semantics (Freed = inductive least fixpoint): with the repaired fair queue, dropping/closing the socket frees every registered connection whatever wakers were armed (dropped_closes) and always frees the accept tasks; the NEGATION for the queue as it was (an armed StreamWaker closes a strong cycle through the transport — reproduced on the real code, repaired by a fix: commit); finding: a pending handshake survives close/drop (known finding D14). World model: Drop/close() empty every table. PARTIAL: OS sockets, tokio scheduling and 'shortly afterwards' are observed, not modelled. Tie: 9 socket types x all 2^5 history prefixes {recv pending, recv delivered, send, peer EOF, pending handshake} x {drop, close()} over scripted pipes whose halves record their own Drop, compared half by half; real listeners (net engine): type x transport x {bound, accepted, traffic, pending handshake} x {close, drop}, and close/drop issued while ANOTHER THREAD holds the fair queue's lock (a slow waker woken by a registering handshake task / by arriving data).",
         note=LEAN_NOTE + "Arc/Drop semantics as modelled by the ownership graph; listeners/OS observed by the net engine where built",
         technique="Lean 4 proof (inductive Freed over the ownership graph; cycle-leak negation) + exhaustive history-prefix correspondence on pipe Drop flags",
     ),
     "C18": dict(
         engine="net",
-        text="Lean 4 on the bind-table model (Model/Net.lean; OS outcomes are inputs with their assumptions spelled out): a successful bind returns a NEW endpoint id and adds exactly it, other sockets untouched; a failed bind (address in use, malformed) returns the state unchanged; unbind of a bound endpoint removes exactly it and leaves connections and other sockets untouched; unbind of anything else = NoSuchBind with the state unchanged; a fresh connect is accepted iff the endpoint is in the bind set of a live socket (listener running <-> bound). PARTIAL: OS, scheduler, timing observed not modelled. Tie: real multi-thread runtime, real TCP v4/v6 + IPC, raw clients; directed cases per type x transport and seeded op sequences <= 12 over bind/dup/rebind/malformed/unbind/unknown/connect-in/message-on-old-connection; the model predicts the outcome class of every op; python reference BindSet oracle (binds() after every op, connect right after unbind returns).",
+        text="Lean 4 on the bind-table model (Model/Net.lean; OS outcomes are inputs with their assumptions spelled out): a successful bind returns a NEW endpoint id and adds exactly it, other sockets untouched; a failed bind (address in use, malformed) returns the state unchanged; unbind of a bound endpoint removes exactly it and leaves connections and other sockets untouched; unbind of anything else = NoSuchBind with the state unchanged; a fresh connect is accepted iff the endpoint is in the bind set of a live socket (listener running <-> bound). PARTIAL: OS, scheduler, timing observed not modelled. Tie: real multi-thread runtime, real TCP v4/v6 + IPC, raw clients; directed cases per type x transport and seeded op sequences <= 12 over bind/dup/rebind/malformed/unbind/unknown/connect-in/message-on-old-connection/a client STALLED in its handshake (the endpoint must go on accepting and unbind must return); the model predicts the outcome class of every op; python reference BindSet oracle (binds() after every op, connect right after unbind returns).",
         note=LEAN_NOTE + "OS hands out no listening address twice; refusal immediate on loopback/unix sockets; transports unavailable in the sandbox are skipped and recorded",
         technique="Lean 4 proof (refinement of the bind table to a set) + real-runtime outcome-class correspondence",
     ),
@@ -126,7 +126,7 @@ CLAIMS = {
     ),
     "C20": dict(
         engine="net",
-        text="Lean 4 on the per-connection handshake-task model (Model/Net.lean): a step of connection c's task changes no other connection, no bind table, no socket's liveness (locality); what it concludes is a function of c's OWN bytes and the local socket type only (non-interference: a peer supplying a valid greeting + compatible READY is registered by its own step whatever the other connections do); accepting depends on the bind tables only; a failing handshake appends exactly one AcceptFailed and closes the connection. PARTIAL: that the code really runs one task per connection is OBSERVED. Tie: real runtime, TCP + IPC, every bound socket type: raw clients that stop / close / send garbage at byte offset k of greeting+READY (boundary grid quick, every offset thorough), 1..3 at once, with good clients before (established traffic continues), during and after; monitor event multiset compared; model predicts every outcome class.",
+        text="Lean 4 on the per-connection handshake-task model (Model/Net.lean): a step of connection c's task changes no other connection, no bind table, no socket's liveness (locality); what it concludes is a function of c's OWN bytes and the local socket type only (non-interference: a peer supplying a valid greeting + compatible READY is registered by its own step whatever the other connections do); accepting depends on the bind tables only; a failing handshake appends exactly one AcceptFailed and closes the connection. PARTIAL: that the code really runs one task per connection is OBSERVED. Tie: real runtime, TCP + IPC, every bound socket type: raw clients that stop / close / send garbage at byte offset k of greeting+READY (boundary grid quick, every offset thorough), 1..3 at once, and bursts of connections ABORTED (RST) right after connect, with good clients before (established traffic continues), during and after; monitor event multiset compared; model predicts every outcome class.",
         note=LEAN_NOTE + "tokio task scheduling and the kernel accept queue observed, not modelled; Disconnected events not compared",
         technique="Lean 4 proof (locality + non-interference of per-connection tasks) + real-runtime stall/garbage-offset correspondence",
     ),
